@@ -211,7 +211,7 @@ class NatafTransformation:
         if len( X ) != self.dim:
             raise ValueError( "length of X should be the same as dim" )
         
-        X = np.array( X )
+        X = np.array( X, dtype=float )
         if X.ndim != 1:
             raise ValueError( "X should be 1d array")
 
@@ -266,7 +266,7 @@ class NatafTransformation:
         if len( U ) != self.dim:
             raise ValueError( "length of U should be the same as dim" )
         
-        U = np.array( U )
+        U = np.array( U, dtype=float )
         if U.ndim != 1:
             raise ValueError( "U should be 1d array")
 
@@ -315,7 +315,7 @@ class NatafTransformation:
         if len( X ) != self.dim:
             raise ValueError( "length of X should be the same as dim" )
 
-        X = np.array( X )
+        X = np.array( X, dtype=float )
         if X.ndim != 1:
             raise ValueError( "X should be 1d array")
 
@@ -364,7 +364,7 @@ class NatafTransformation:
         if len( X ) != self.dim:
             raise ValueError( "length of X should be the same as dim" )
 
-        X = np.array( X )
+        X = np.array( X, dtype=float )
         if X.ndim != 1:
             raise ValueError( "X should be 1d array")
 
